@@ -1,8 +1,11 @@
 /* C16 harness: work-unit-local storage through the public API (no hooks).
  * One case per input line, one canonical output line per case (same format as
- * ocaml/drv_c16.ml); every case runs in its own child process so that
- * ABT_KEY_TABLE_SIZE (read by ABT_init) and the global key-id counter start
- * fresh, and a crash is confined to the case.
+ * ocaml/drv_c16.ml).  Every case does its own ABT_init/ABT_finalize with
+ * ABT_KEY_TABLE_SIZE set beforehand and the global key-id counter reset (white
+ * box), so cases are independent; a watchdog alarm aborts a stuck case (the
+ * runner restarts after it).  VH_FORK=1 runs every case in a child process
+ * instead; RC cases always do.  The sanitizer build runs a leak check after
+ * every case (" LEAK" in the observable part).
  *
  *   CFG
  *   KT <env|-> ; op , op , ...        API level, ops executed in the given total order
@@ -1125,7 +1128,7 @@ int main(int argc, char **argv)
         fflush(stdout);
         if (nofork && strncmp(line, "RC", 2)) {
             signal(SIGALRM, on_alarm);
-            alarm(getenv("VH_ALARM") ? atoi(getenv("VH_ALARM")) : 60);
+            alarm(getenv("VH_ALARM") ? atoi(getenv("VH_ALARM")) : (strncmp(line, "CC", 2) ? 60 : 300));
             run_case(line);
             alarm(0);
             fflush(stdout);
